@@ -96,6 +96,30 @@ def ambiguous_tie(ref, margin=1e-7):
     return False
 
 
+def near_tie(ref, window=4e-9):
+    """True when two completions of the reference run (activity finish, end of a sleep) that were pending at the same time have dates that
+    are distinct (beyond rounding) but closer than 4 x precision/timing: the lazy heap (double_equals(date, now, precision/timing)) and
+    update_max_duration merge such events, each merge legitimately shifts what follows by up to the precision, and a chain of them has no
+    fixed bound. Such workloads are not judged (none is generated on purpose). A tiny activity that starts at the completion of another one
+    was not pending with it and is not a near tie."""
+    nsteps = ref["nadvance"] or 1
+    ev = ref["ev"]
+    comp = []
+    for k, t in ev.items():
+        if k[0] == "finish":
+            comp.append((t, ev.get(("start", k[1]), -1.0)))
+        elif k[0] in ("sleep", "ctl"):
+            comp.append((t, -1.0))
+    comp.sort()
+    for i, (a, _) in enumerate(comp):
+        for b, started in comp[i + 1:]:
+            if b - a >= window:
+                break
+            if b - a > 4.0 * nsteps * math.ulp(max(abs(b), 1.0)) and started < a:
+                return True
+    return False
+
+
 ROOT_RANK = {"finish": 0, "sig-finish": 1, "sleep": 2, "end": 3}
 
 
